@@ -137,7 +137,31 @@ class Sink(betterproto.Message):
     tags: List[str] = betterproto.string_field(9)
 
 
-ALL = [Empty, Leaf, Node, Scalars, Containers, Oneofs, Presence, Sink]
+@dataclass(eq=False, repr=False)
+class Exotic(betterproto.Message):
+    """Shapes none of the other classes has: repeated well-known types, every remaining wrapper, well-known
+    types / a wrapper / a field-less message as oneof members, bool / int64 map keys, field-less messages as
+    map values and list elements, a repeated recursive type, the largest legal field number."""
+    r_ts: List[datetime] = betterproto.message_field(1)
+    r_dur: List[timedelta] = betterproto.message_field(2)
+    w_bytes: Optional[bytes] = betterproto.message_field(3, wraps=betterproto.TYPE_BYTES)
+    w_double: Optional[float] = betterproto.message_field(4, wraps=betterproto.TYPE_DOUBLE)
+    w_int64: Optional[int] = betterproto.message_field(5, wraps=betterproto.TYPE_INT64)
+    w_uint32: Optional[int] = betterproto.message_field(6, wraps=betterproto.TYPE_UINT32)
+    w_float: Optional[float] = betterproto.message_field(7, wraps=betterproto.TYPE_FLOAT)
+    k_ts: datetime = betterproto.message_field(8, group="kind")
+    k_dur: timedelta = betterproto.message_field(9, group="kind")
+    k_void: "Empty" = betterproto.message_field(10, group="kind")
+    k_uint: int = betterproto.uint64_field(11, group="kind")
+    m_bool_str: Dict[bool, str] = betterproto.map_field(12, betterproto.TYPE_BOOL, betterproto.TYPE_STRING)
+    m_i64_bytes: Dict[int, bytes] = betterproto.map_field(13, betterproto.TYPE_INT64, betterproto.TYPE_BYTES)
+    m_str_void: Dict[str, "Empty"] = betterproto.map_field(14, betterproto.TYPE_STRING, betterproto.TYPE_MESSAGE)
+    r_void: List["Empty"] = betterproto.message_field(15)
+    r_node: List["Node"] = betterproto.message_field(16)
+    last: int = betterproto.int32_field(536870911)
+
+
+ALL = [Empty, Leaf, Node, Scalars, Containers, Oneofs, Presence, Sink, Exotic]
 BY_NAME = {c.__name__: c for c in ALL}
 _NS = dict(globals())
 
